@@ -162,6 +162,12 @@ def twins_for(prop: str) -> List[Tuple[str, dict]]:
     if d.is_dir():
         for p in sorted(d.glob(f"{prop}-*.diff")):
             out.append((f"twin/{p.stem}", {"diff": p.read_text()}))
+    # behaviour-preserving refactorings written by independent agents (extract helper, guard clauses, renames, idiom
+    # replacements, additive code): every property's check must stay silent on every one of them
+    d = VERIF / "selfcheck" / "refactorings"
+    if d.is_dir():
+        for p in sorted(d.glob("*.diff")):
+            out.append((f"refactoring/{p.stem}", {"diff": p.read_text()}))
     return out
 
 
